@@ -60,21 +60,28 @@ def absfilter(f: t.Any) -> t.Any:
     raise TypeError(f"no RFC 4511 abstraction for filter {type(f).__name__}")
 
 
-class NotBytes(Exception):
-    pass
+class BadField(Exception):
+    """A field of a sansldap value is not the kind of value its type promises."""
+
+    def __init__(self, tag: str, msg: str) -> None:
+        super().__init__(msg)
+        self.tag = tag
+
+
+NotBytes = BadField
 
 
 def _b(v: t.Any) -> bytes:
     # decoded octet strings must be self-contained ``bytes`` -- ``memoryview == bytes`` is True in
     # Python and would hide an aliasing bug, so the type is checked, not just the value.
     if type(v) is not bytes:
-        raise NotBytes(f"octet string field holds {type(v).__name__}, not bytes")
+        raise BadField("octets-not-bytes", f"octet string field holds {type(v).__name__}, not bytes")
     return v
 
 
 def _bool(v: t.Any) -> bool:
     if type(v) is not bool:
-        raise NotBytes(f"boolean field holds {type(v).__name__}")
+        raise BadField("bool-not-bool", f"boolean field holds {type(v).__name__}")
     return v
 
 
@@ -88,9 +95,17 @@ def abscontrol(c: t.Any, options: t.Any = None) -> t.Dict[str, t.Any]:
     }
 
 
+def _code(c: t.Any) -> int:
+    v = c.value if isinstance(c, enum.Enum) else c
+    # the integer a result code compares / hashes / converts as must be the code it was built from
+    if int(c) != v or not (c == v):
+        raise BadField("result-code-int-value", f"result code built from {v} has integer value {int(c)} (so it compares equal to code {int(c)})")
+    return v
+
+
 def _result(r: t.Any) -> t.Dict[str, t.Any]:
     return {
-        "resultCode": int(r.result_code),
+        "resultCode": _code(r.result_code),
         "matchedDN": _s(r.matched_dn),
         "diagnosticMessage": _s(r.diagnostics_message),
         "referral": None if r.referrals is None else [_s(u) for u in r.referrals],
